@@ -33,6 +33,7 @@ def r_select(v):
 
 
 MF = C.MethodFilter(f_select)
+MF2 = C.MethodFilter(f_accept)   # same class, same method code, different behaviour
 UF = C.UnhashableFilter(f_select)
 
 DIRS = (0, 1, 2)
@@ -73,6 +74,9 @@ def evaluate(vs, ls, unis=(), level=2, unhashable=True, searches=True):
                     elif fname == "unhashable" and f is None:
                         continue
                     out.append((f"nb v{i} d{d} u{u} {fname}", _call(lambda: helpers.neighbors(v, d, u, f), vl)))
+        # bound methods of two differently configured objects of one class
+        out.append((f"nb v{i} d1 u1 method-of-other-instance", _call(lambda: helpers.neighbors(v, 1, 1, MF2.accept), vl)))
+        out.append((f"nb v{i} d1 u1 method-again", _call(lambda: helpers.neighbors(v, 1, 1, MF.accept), vl)))
         # two short-lived callables with different behaviour (a cache keyed on anything but the
         # callable itself, e.g. its id(), would confuse them)
         out.append((f"nb v{i} d1 u1 fresh-accept", _call(lambda: helpers.neighbors(v, 1, 1, lambda e, x: True), vl)))
